@@ -5,14 +5,15 @@ from .c01 import C01
 class C02(ChanSpec):
     id = "C02"
     design_ref = "DESIGN.md §6 C02 (Chan LTS)"
-    technique = "Lean 4 proof (quiescent => queue empty, wire = accepted, all flushed; no deadlock with work pending) over the channel LTS, with step-by-step monitoring of the real channel run to quiescence under controlled schedules"
+    technique = "Lean 4 proof (quiescent => queue empty, wire = accepted, all flushed; no deadlock; termination of the framework's steps by a lexicographic measure, hence 'eventually flushed') over the channel LTS, with step-by-step monitoring of the real channel run to quiescence under controlled schedules"
     level_text = ("Lean 4 theorems over the Chan LTS for every capacity, mode, number of writers and interleaving: in every reachable quiescent state of a healthy channel (no call between "
                   "enqueue and CAS, no executor action pending, no owner, no lingering sender) the queue and batch are empty, the wire equals the accepted payloads and everything is flushed "
                   "(uses the no-strand invariant: queue non-empty => owner running or a writer about to CAS or a sender about to re-check); whenever framework work is pending some non-client "
-                  "step is enabled (no deadlock); and the model without the re-check after release strands a packet (negation witness). The liveness half ('eventually') is covered as "
-                  "safety-at-quiescence plus deadlock-freedom; a ranking function for termination is not proved. Tie as C01, with every execution run to quiescence and the terminal state "
+                  "step is enabled (no deadlock); the framework's own steps terminate (well-foundedness by the lexicographic measure: queue length, then the remaining steps of owner / pending "
+                  "executor action / released senders); hence, once every write call has returned, running the framework in any order until no step is enabled always ends, with everything "
+                  "accepted on the wire and flushed; and the model without the re-check after release strands a packet (negation witness). Tie as C01, with every execution run to quiescence and the terminal state "
                   "compared (implementation quiescent <=> LTS quiescent).")
-    level_note = C01.level_note + " Partial: termination of the sender (the 'eventually' of the statement) is argued from deadlock-freedom and finiteness of the queue, not by a proved variant."
+    level_note = C01.level_note + " 'Eventually' is proved as termination of the framework's steps plus cleanliness of every state in which none is enabled; fairness of the Go scheduler and of the executor (every enabled step is eventually taken) is assumed."
     rule = C01.rule + "; the lost-wake-up window (writer finishing between the sender's last len check and Store idle) is reached by DFS with 2 preemptions"
     assumptions = C01.assumptions + ("the executor eventually runs every submitted action",)
     modelled_not_verified = C01.modelled_not_verified
